@@ -25,7 +25,8 @@ pub trait BddBuilder<'a>: BottomUpBuilder<'a, BddPtr<'a>> {
             self.binv(), ordered(f, self.order_s()), ordered(g, self.order_s()), ordered(h, self.order_s()),
         ensures
             forall|env: Env| #[trigger] tr(env) ==> ptr_sem(r, env) == ite3(ptr_sem(f, env), ptr_sem(g, env), ptr_sem(h, env)),
-            res_shape(f, g, h, r, self.order_s());
+            res_shape(f, g, h, r, self.order_s()),
+            res_canon(f, g, h, r); // #C02
 
     fn cond_helper(&'a self, bdd: BddPtr<'a>, lbl: VarLabel, value: bool) -> (r: BddPtr<'a>)
         requires
